@@ -258,6 +258,33 @@ fn value_level<T: Nums + Evaluate>(m: &mut Mon, opname: &str, orig: &Piecewise<T
     }
 }
 
+/// translate(+-inf) must raise the value to +-inf wherever the function is finite (no tolerance involved)
+fn nonfinite_translate<T: Nums + Evaluate + Translate + Clone>(m: &mut Mon, pw: &Piecewise<T>, name: &str, positive: bool) {
+    for c in [f64::INFINITY, f64::NEG_INFINITY] {
+        let mut q = pw.clone();
+        if guard(|| q.translate(c)).is_err() {
+            m.panic("Piecewise translate panic (non-finite scalar)", "panic", || json!({"type": name}));
+            return;
+        }
+        for seg in pw.segments.iter().take(4) {
+            let x = if seg.end.is_finite() { seg.end } else { 1.0 };
+            if positive && !(x > 0.0) {
+                continue;
+            }
+            let before = pw.evaluate(x);
+            if !before.is_finite() {
+                continue;
+            }
+            m.count("nonfinite_translate_checked");
+            let after = q.evaluate(x);
+            if after != c {
+                m.violation("Piecewise translate by an infinite scalar does not add it", || json!({"type": name, "x": hx(x), "before": hx(before), "after": hx(after), "scalar": hx(c)}));
+                return;
+            }
+        }
+    }
+}
+
 macro_rules! real_full {
     // types with Mul, MulAssign, Neg, Translate, Copy
     ($m:expr, $r:expr, $t:ty, $pos:expr, $val:expr) => {{
@@ -306,6 +333,7 @@ macro_rules! real_full {
                 if check_real(m, "Piecewise", "translate", &pw, &res, &alone_t) && $val {
                     value_level(m, "translate", &pw, &res, |y| y + v, 1.0, v.abs());
                 }
+                nonfinite_translate(m, &pw, <$t as Nums>::NAME, $pos);
             }
             Err(p) => m.panic("Piecewise translate panic (real)", &p, || json!({"type": <$t as Nums>::NAME})),
         }
@@ -414,7 +442,7 @@ pub fn canaries(m: &mut Mon) {
     m.canary(|m| check_rec(m, "canary", Op::Mul(2.0), &ends, &q.segments));
 }
 
-pub const FLOORS: &[&str] = &["mul_assign_vs_mul_compared", "value_level_checks", "rec_functions", "rec_single_piece", "real:Piecewise:mul:Poly3", "real:Piecewise:neg:IntOfLogPoly4", "real:Segment:mul_assign_ref:Poly8", "real:Piecewise:mul_assign:Log<Poly4>"];
+pub const FLOORS: &[&str] = &["nonfinite_translate_checked", "mul_assign_vs_mul_compared", "value_level_checks", "rec_functions", "rec_single_piece", "real:Piecewise:mul:Poly3", "real:Piecewise:neg:IntOfLogPoly4", "real:Segment:mul_assign_ref:Poly8", "real:Piecewise:mul_assign:Log<Poly4>"];
 
 pub fn run(a: &Args, m: &mut Mon) {
     m.floors(FLOORS);
